@@ -17,6 +17,12 @@ try:
     runner.build_intern("miri")
 except runner.Broken as e:      # C18 reports this as inconclusive, not as a violation
     print("setup: Miri run not available:", e)
+from mon import sanit
+for what, f in (("AddressSanitizer worker", lambda: runner.build("asan")), ("Miri worker", sanit.build_miri_worker)):
+    try:
+        f()
+    except runner.Broken as e:  # the sanitizer passes report this as inconclusive, not as a violation
+        print("setup: %s not available:" % what, e)
 from mon.props import c15
 c15.build_cdriver(cli)
 print("setup: builds ready")
